@@ -163,6 +163,15 @@ class _Params(ast.NodeTransformer):
         return node
 
     def visit_Call(self, node):
+        # `g(.., **kw)` where kw is the helper's own **kw: the keywords the call site gave take its place
+        kws = []
+        for k in node.keywords:
+            b = self.bound.get(k.value.id) if (k.arg is None and isinstance(k.value, ast.Name)) else None
+            if b is not None and hasattr(b, '_kwargs_extra'):
+                kws.extend(copy.deepcopy(b._kwargs_extra))
+            else:
+                kws.append(k)
+        node.keywords = kws
         # a helper made general with `p=None` parameters that it only passes on as `p=p`: at a call site that does not
         # give p, the spliced text would read `g(.., p=None)` where the reference has `g(..)` - passing None for a
         # keyword the caller never gave is taken to be the same as leaving it out
@@ -176,7 +185,7 @@ class _Params(ast.NodeTransformer):
 def _bind(fn, call, is_method):
     """{param: argument expression} or None"""
     a = fn.args
-    if a.vararg or a.kwarg or a.posonlyargs or any(isinstance(x, ast.Starred) for x in call.args) or any(k.arg is None for k in call.keywords):
+    if a.vararg or a.posonlyargs or any(isinstance(x, ast.Starred) for x in call.args) or any(k.arg is None for k in call.keywords):
         return None
     params = [p.arg for p in a.args]
     if is_method:
@@ -185,10 +194,25 @@ def _bind(fn, call, is_method):
     if len(call.args) > len(params):
         return None
     bound = dict(zip(params, call.args))
+    extra = []
     for k in call.keywords:
         if k.arg not in params + kwonly or k.arg in bound:
+            if a.kwarg and k.arg not in bound:
+                extra.append(k)          # goes into **kwargs
+                continue
             return None
         bound[k.arg] = k.value
+    if a.kwarg:
+        # `**header` is supported when the body only passes it on as `g(.., **header)`
+        nm = a.kwarg.arg
+        body_nodes = [y for x in fn.body for y in ast.walk(x)]
+        uses = [y for y in body_nodes if isinstance(y, ast.Name) and y.id == nm]
+        passed = [k for y in body_nodes if isinstance(y, ast.Call) for k in y.keywords if k.arg is None and isinstance(k.value, ast.Name) and k.value.id == nm]
+        if len(uses) != len(passed) or not passed:
+            return None
+        marker = ast.Name(id=nm, ctx=ast.Load())
+        marker._kwargs_extra = extra
+        bound[nm] = marker
     pos_defaults = dict(zip(params[len(params) - len(a.defaults):] if not is_method else [p.arg for p in a.args][len(a.args) - len(a.defaults):], a.defaults))
     for p in params:
         if p not in bound:
